@@ -29,9 +29,18 @@ def suffix(attr: str):
     return m.group(1) if m else None
 
 
+def may_raise_formatting(node) -> bool:
+    """`fmt % args` where fmt is not a literal: the format string contains run-time data (an identifier with a `%` in it
+    raises ValueError / TypeError) - unlike f-strings and the logger's own lazy `%s` arguments"""
+    return any(isinstance(x, ast.BinOp) and isinstance(x.op, ast.Mod) and not (isinstance(x.left, ast.Constant) and isinstance(x.left.value, str))
+               for x in ast.walk(node))
+
+
 def is_logging_stmt(st) -> bool:
     if isinstance(st, ast.Expr) and isinstance(st.value, ast.Call):
         f = ast.unparse(st.value.func)
+        if may_raise_formatting(st.value):
+            return False
         return f.startswith("logging.") or f.startswith("self.fhs_logger.") or f == "print"
     if isinstance(st, ast.Expr) and isinstance(st.value, ast.Constant):
         return True
